@@ -191,6 +191,21 @@ def run(ctx):
     fn = ser.func("_atom_from_stream")
     py_caps = {}
     trunc = 0
+    # a read through a module-level helper that itself raises on a short read (f.read(n); len(..) != n -> raise) counts like the
+    # inline form, once per call
+    exact_readers = set()
+    for hn, hf in ser.funcs.items():
+        if hn == "_atom_from_stream":
+            continue
+        reads = [c_ for c_ in ast.walk(hf) if isinstance(c_, ast.Call) and isinstance(c_.func, ast.Attribute) and c_.func.attr == "read"]
+        chk = [n_ for n_ in ast.walk(hf) if isinstance(n_, ast.If) and raises(n_.body) and isinstance(n_.test, ast.Compare) and len(n_.test.ops) == 1
+               and isinstance(n_.test.ops[0], ast.NotEq) and ast.unparse(n_.test.left).startswith("len(")]
+        if len(reads) == 1 and len(chk) == 1 and len(hf.args.args) == 2 and ast.unparse(chk[0].test.comparators[0]) == hf.args.args[1].arg \
+                and ast.unparse(reads[0].args[0]) == hf.args.args[1].arg:
+            exact_readers.add(hn)
+    for n in ast.walk(fn):
+        if isinstance(n, ast.Call) and isinstance(n.func, ast.Name) and n.func.id in exact_readers:
+            trunc += 1
     for n in ast.walk(fn):
         if isinstance(n, ast.If) and raises(n.body) and isinstance(n.test, ast.Compare) and len(n.test.ops) == 1:
             left = ast.unparse(n.test.left)
